@@ -503,3 +503,275 @@ Proof.
   split; [vm_compute; reflexivity|]. split; [vm_compute; reflexivity|].
   exact (C15_order_at_write_or_at_read_includes d root (-1)%Z fsU fsO Hw Hwr Hc Hn Hq HU HO).
 Qed.
+
+(* ================================================================================================== *)
+(* non-vacuity examples added after the reviewer's audit (Properties/C15_nv.v, 2026-10-01)         *)
+(* ================================================================================================== *)
+
+(* ==== non-vacuity instances obtained BY APPLYING the theorems above (added after review) ================== *)
+
+(* the example tree: int and str keys at three dict levels, all of them unsorted; a list of dicts with unsorted keys at
+   level 1 and at level 3; strings that need quotes and strings the typing pass re-types ("12", " on ") *)
+Definition C15nv_d : list (key * tree) :=
+  [(KS (of_string "zeta"), Leaf (SStr (of_string "two  words")));
+   (KI 7, Dict [(KS (of_string "y"), Leaf (SInt 2)); (KI 3, Leaf (SStr (of_string "a b; c")));
+                (KS (of_string "w"), Dict [(KS (of_string "b"), Leaf (SStr (of_string "12")));
+                                           (KI 0, Lst [Dict [(KS (of_string "q"), Leaf (SInt 1)); (KS (of_string "p"), Leaf (SStr (of_string " on ")))]]);
+                                           (KS (of_string "a"), Leaf SNone)]);
+                (KI (-1), Leaf SNone)]);
+   (KS (of_string "alpha"), Lst [Dict [(KS (of_string "q"), Leaf (SInt 1)); (KS (of_string "p"), Leaf (SStr (of_string "it's")))]; Leaf (SInt 7)]);
+   (KI (-2), Leaf (SFloat (of_string "1.5")))].
+Definition C15nv_od : list (key * tree) :=
+  [(KI (-2), Leaf (SFloat (of_string "1.5")));
+   (KI 7, Dict [(KI (-1), Leaf SNone); (KI 3, Leaf (SStr (of_string "a b; c")));
+                (KS (of_string "w"), Dict [(KI 0, Lst [Dict [(KS (of_string "q"), Leaf (SInt 1)); (KS (of_string "p"), Leaf (SStr (of_string " on ")))]]);
+                                           (KS (of_string "a"), Leaf SNone); (KS (of_string "b"), Leaf (SStr (of_string "12")))]);
+                (KS (of_string "y"), Leaf (SInt 2))]);
+   (KS (of_string "alpha"), Lst [Dict [(KS (of_string "q"), Leaf (SInt 1)); (KS (of_string "p"), Leaf (SStr (of_string "it's")))]; Leaf (SInt 7)]);
+   (KS (of_string "zeta"), Leaf (SStr (of_string "two  words")))].
+
+Example C15_sorted_nonvacuous :
+  sorted_deep (order_tree (Dict C15nv_d)) = true /\ sorted_deep (Dict C15nv_d) = false /\ order_tree (Dict C15nv_d) = Dict C15nv_od.
+Proof. split; [exact (C15_sorted (Dict C15nv_d))|]. split; vm_compute; reflexivity. Qed.
+
+Example C15_perm_nonvacuous :
+  Permutation (map fst (kvs_of (order_tree (Dict C15nv_d)))) (map fst C15nv_d) /\
+  map fst (kvs_of (order_tree (Dict C15nv_d))) = [KI (-2); KI 7; KS (of_string "alpha"); KS (of_string "zeta")] /\
+  map fst C15nv_d = [KS (of_string "zeta"); KI 7; KS (of_string "alpha"); KI (-2)].
+Proof. split; [exact (C15_perm C15nv_d)|]. split; vm_compute; reflexivity. Qed.
+
+(* C15_assoc at paths of length 1, 2 and 3: to a dict (comes back ordered), to a list with a dict inside (the very same
+   value), to a leaf, and a path that leads nowhere *)
+Example C15_assoc_nonvacuous :
+  let t := Dict C15nv_d in
+  let p1 := [KI 7; KS (of_string "w")] in let p2 := [KI 7; KS (of_string "w"); KI 0] in
+  let p3 := [KI 7; KI 3] in let p4 := [KI 7; KS (of_string "nope")] in
+  (get_dpath (order_tree t) p1 = option_map order_child (get_dpath t p1) /\
+   get_dpath (order_tree t) p2 = option_map order_child (get_dpath t p2) /\
+   get_dpath (order_tree t) p3 = option_map order_child (get_dpath t p3) /\
+   get_dpath (order_tree t) p4 = option_map order_child (get_dpath t p4)) /\
+  get_dpath (order_tree t) p1 =
+    Some (Dict [(KI 0, Lst [Dict [(KS (of_string "q"), Leaf (SInt 1)); (KS (of_string "p"), Leaf (SStr (of_string " on ")))]]);
+                (KS (of_string "a"), Leaf SNone); (KS (of_string "b"), Leaf (SStr (of_string "12")))]) /\
+  get_dpath (order_tree t) p1 <> get_dpath t p1 /\
+  get_dpath (order_tree t) p2 = get_dpath t p2 /\ get_dpath t p2 <> None /\
+  get_dpath (order_tree t) p3 = Some (Leaf (SStr (of_string "a b; c"))) /\ get_dpath (order_tree t) p4 = None.
+Proof.
+  intros t p1 p2 p3 p4.
+  split; [exact (conj (C15_assoc t p1) (conj (C15_assoc t p2) (conj (C15_assoc t p3) (C15_assoc t p4))))|].
+  split; [vm_compute; reflexivity|]. split; [vm_compute; discriminate|]. split; [vm_compute; reflexivity|].
+  split; [vm_compute; discriminate|]. split; vm_compute; reflexivity.
+Qed.
+
+Example C15_lists_nonvacuous :
+  let l := [Dict [(KS (of_string "q"), Leaf (SInt 1)); (KI 5, Leaf (SStr (of_string "it's")))]; Leaf (SInt 7); Lst [Dict [(KS (of_string "b"), Leaf SNone); (KS (of_string "a"), Leaf SNone)]]] in
+  order_child (Lst l) = Lst l /\ order_child (Leaf (SStr (of_string "b a"))) = Leaf (SStr (of_string "b a")) /\
+  order_child (Dict [(KS (of_string "b"), Leaf SNone); (KS (of_string "a"), Leaf SNone)]) <> Dict [(KS (of_string "b"), Leaf SNone); (KS (of_string "a"), Leaf SNone)].
+Proof. intros l. refine (conj (proj1 C15_lists l) (conj (proj2 C15_lists _) _)). vm_compute. discriminate. Qed.
+
+Example C15_idem_nonvacuous :
+  order_tree (order_tree (Dict C15nv_d)) = order_tree (Dict C15nv_d) /\ order_tree (Dict C15nv_d) <> Dict C15nv_d.
+Proof. split; [exact (C15_idem (Dict C15nv_d)) | vm_compute; discriminate]. Qed.
+
+(* C15_sd_order: all four side tables non-empty and unsorted (the line comment table as a reader builds it across the
+   counter wrap-around: 999999 before 0) *)
+Definition C15nv_sd : sdict :=
+  mkSD C15nv_d [(999999%N, of_string "// last id"); (0%N, of_string "// first id")]
+       [(2%N, of_string "/* two */"); (1%N, of_string "/* one */")]
+       [(5%N, (of_string "#include 'b'", of_string "b", of_string "/d/b")); (4%N, (of_string "#include 'a'", of_string "a", of_string "/d/a"))]
+       [(7%N, (of_string "$a", of_string "EXPRESSION000007")); (6%N, (of_string "$b", of_string "EXPRESSION000006"))].
+Example C15_sd_order_applied :
+  (Dict (sd_data (sd_order C15nv_sd)) = order_tree (Dict (sd_data C15nv_sd)) /\
+   sd_lc (sd_order C15nv_sd) = tsort (sd_lc C15nv_sd) /\ sd_bc (sd_order C15nv_sd) = tsort (sd_bc C15nv_sd) /\
+   sd_inc (sd_order C15nv_sd) = tsort (sd_inc C15nv_sd) /\ sd_expr (sd_order C15nv_sd) = tsort (sd_expr C15nv_sd)) /\
+  sd_data (sd_order C15nv_sd) = C15nv_od /\
+  sd_lc (sd_order C15nv_sd) = [(0%N, of_string "// first id"); (999999%N, of_string "// last id")] /\
+  map fst (sd_bc (sd_order C15nv_sd)) = [1; 2]%N /\ map fst (sd_inc (sd_order C15nv_sd)) = [4; 5]%N /\
+  map fst (sd_expr (sd_order C15nv_sd)) = [6; 7]%N.
+Proof. split; [exact (C15_sd_order C15nv_sd)|]. repeat split; vm_compute; reflexivity. Qed.
+
+(* C15_sd_order_tables: a table numbered across the wrap-around (not ascending: it is re-sorted), and one below it
+   (ascending: the premise of the last part holds and the table is left as it is) *)
+Example C15_sd_order_tables_nonvacuous :
+  let l := [(999998%N, of_string "a"); (999999%N, of_string "b"); (0%N, of_string "c"); (1%N, of_string "d")] in
+  let l2 := [(41%N, of_string "a"); (42%N, of_string "b"); (42%N, of_string "b'"); (999999%N, of_string "c")] in
+  (Permutation (tsort l) l /\ ids_sorted (map fst (tsort l)) = true /\ (forall i, tlookup i (tsort l) = tlookup i l)) /\
+  tsort l = [(0%N, of_string "c"); (1%N, of_string "d"); (999998%N, of_string "a"); (999999%N, of_string "b")] /\
+  ids_sorted (map fst l) = false /\
+  ids_sorted (map fst l2) = true /\ tsort l2 = l2.
+Proof.
+  intros l l2. destruct (C15_sd_order_tables str l) as (A & B & C & _). destruct (C15_sd_order_tables str l2) as (_ & _ & _ & D).
+  assert (H2 : ids_sorted (map fst l2) = true) by (vm_compute; reflexivity).
+  refine (conj (conj A (conj B C)) (conj _ (conj _ (conj H2 (D H2))))); vm_compute; reflexivity.
+Qed.
+
+(* C15_include_keys_commute: include placeholder keys at both ends and in the middle of an unsorted top level *)
+Example C15_include_keys_commute_nonvacuous :
+  let ph i := (KS (placeholder w_INCLUDE i), Leaf (SStr (placeholder w_INCLUDE i))) in
+  let d := ph 2%N :: (KS (of_string "zeta"), Leaf (SInt 1)) :: (KI 7, Dict [(KS (of_string "y"), Leaf (SInt 2)); (KI 3, Leaf SNone)]) ::
+           ph 999999%N :: (KS (of_string "alpha"), Lst [Leaf (SInt 7)]) :: ph 0%N :: nil in
+  remove_include_keys (kvs_of (order_tree (Dict d))) = kvs_of (order_tree (Dict (remove_include_keys d))) /\
+  map fst (kvs_of (order_tree (Dict d))) =
+    [KI 7; KS (of_string "INCLUDE000000"); KS (of_string "INCLUDE000002"); KS (of_string "INCLUDE999999"); KS (of_string "alpha"); KS (of_string "zeta")] /\
+  remove_include_keys (kvs_of (order_tree (Dict d))) =
+    [(KI 7, Dict [(KI 3, Leaf SNone); (KS (of_string "y"), Leaf (SInt 2))]); (KS (of_string "alpha"), Lst [Leaf (SInt 7)]); (KS (of_string "zeta"), Leaf (SInt 1))].
+Proof. intros ph d. split; [exact (C15_include_keys_commute d)|]. split; vm_compute; reflexivity. Qed.
+
+(* C15_parse_values_order on the example tree: "12" becomes the int 12 and " on " the bool true (two and three levels
+   down, the latter inside a list), before or after ordering *)
+Example C15_parse_values_order_nonvacuous :
+  let t := Dict C15nv_d in
+  exists t', parse_values_tree t = Ok t' /\ parse_values_tree (order_tree t) = Ok (order_tree t') /\ t' <> t /\
+    get_dpath t' [KI 7; KS (of_string "w"); KS (of_string "b")] = Some (Leaf (SInt 12)) /\
+    get_dpath (order_tree t') [KI 7; KS (of_string "w"); KI 0] =
+      Some (Lst [Dict [(KS (of_string "q"), Leaf (SInt 1)); (KS (of_string "p"), Leaf (SBool true))]]).
+Proof.
+  intros t. destruct (C15_parse_values_order t) as [[t' E] H]. exists t'. split; [exact E|]. split; [exact (H t' E)|].
+  vm_compute in E. injection E as <-. split; [vm_compute; discriminate|]. split; vm_compute; reflexivity.
+Qed.
+
+(* C15_write_option_append: the target exists (a comment, an int key with a sub-dict that overlaps the source's, unsorted);
+   the source has comments at two levels, strings that are re-typed, a list of dicts; the counter one step before its
+   last value (the target's comment gets the id 999999, the counter ends at 0) *)
+Definition C15nv_fs : fsys := [(of_string "/d/out.dict", FNative (of_string "zz 1; // kept
+4 { m 'x'; -1 old; }
+"))].
+Definition C15nv_src : sdict :=
+  mkSD [(KS (of_string "b"), Leaf (SStr (of_string "12")));
+        (KS (of_string "LINECOMMENT000003"), Leaf (SStr (of_string "LINECOMMENT000003")));
+        (KI 4, Dict [(KS (of_string "z"), Leaf (SStr (of_string "on")));
+                     (KS (of_string "LINECOMMENT000001"), Leaf (SStr (of_string "LINECOMMENT000001")));
+                     (KI (-1), Leaf (SStr (of_string "x  y")))]);
+        (KS (of_string "a"), Lst [Dict [(KS (of_string "q"), Leaf (SInt 1)); (KS (of_string "p"), Leaf (SInt 2))]])]
+       [(3%N, of_string "// three"); (1%N, of_string "// one")] [] [] [].
+Example C15_write_option_append_nonvacuous :
+  let target := of_string "/d/out.dict" in let s := C15nv_src in
+  exists u t,
+    fs_lookup (norm_path target) C15nv_fs = Some u /\ parse_values_tree (Dict (sd_data s)) = Ok t /\
+    (let src := mkSD (kvs_of_tree t) (sd_lc s) (sd_bc s) (sd_inc s) (sd_expr s) in
+     write_sd C15nv_fs false target true true s 999998 =
+     match read_opts C15nv_fs target true false true [] 999998 with
+     | None => None
+     | Some (Raise e) => Some (Raise e)
+     | Some (Ok (existing, c)) =>
+         let m := sd_order (sd_merge (sd_order existing) (sd_data src) (Some src)) in
+         Some (Ok (if false then foam_to_string_sd m else to_string_sd m, c))
+     end) /\
+    write_sd C15nv_fs false target true true s 999998 = Some (Ok (native_header ++ of_string
+"4
+{
+    -1                        old;
+    // one
+    m                         x;
+    z                         true;
+}
+// three
+// kept
+a
+(
+
+    {
+        q                     1;
+        p                     2;
+    }
+);
+b                             12;
+zz                            1;
+", 0%Z)) /\
+    write_sd C15nv_fs false target true true s 999998 <> write_sd C15nv_fs false target true false s 999998.
+Proof.
+  intros target s.
+  destruct (fs_lookup (norm_path target) C15nv_fs) as [u|] eqn:E1; [|vm_compute in E1; discriminate E1].
+  destruct (parse_values_tree (Dict (sd_data s))) as [t|e] eqn:E2; [|vm_compute in E2; discriminate E2].
+  exists u, t. split; [reflexivity|]. split; [reflexivity|].
+  split; [exact (C15_write_option_append C15nv_fs false target s 999998%Z u t E1 E2)|].
+  split; [vm_compute; reflexivity | vm_compute; discriminate].
+Qed.
+
+(* C15_parse_option: DictParser.parse with order=True of a file with line and block comments, an include, an expression,
+   int and str keys at two levels and a list of dicts (the file tree of C15_read_option_nonvacuous), native and Foam
+   output, with and without include processing *)
+Definition C15nv_pfs : fsys :=
+  [(of_string "/d/main.dict", FNative (of_string "// first
+#include 'inc.dict'
+zeta 1; // c2
+alpha { y 2; 3 4; x 'a  b'; }
+/* blk */
+5 ( {q 1; p 2;} 7 ); beta $zeta;
+"));
+   (of_string "/d/inc.dict", FNative (of_string "mm 1; aa 2;
+"))].
+Definition C15nv_parse_rhs (fs : fsys) (src : str) (includes comments : bool) (scope : list scalar) (output : option str) (count : Z) :=
+  match output_kind output with
+  | None => None
+  | Some foam0 =>
+      match read_opts fs src includes false comments scope count with
+      | None => None
+      | Some (Raise e) => Some (Raise e)
+      | Some (Ok (s, c)) =>
+          let name := target_file_name (base_name src) (Some (of_string "parsed")) scope output in
+          let target := dir_of src ++ [c_slash] ++ name in
+          let foam := foam0 || ends_with (of_string ".foam") name in
+          if ends_with (of_string ".json") name || ends_with (of_string ".xml") name then None else
+          match write_sd fs foam target false false (sd_order s) c with
+          | None => None
+          | Some (Raise e) => Some (Raise e)
+          | Some (Ok (txt, c')) => Some (Ok (dir_of src ++ [c_slash] ++ name, txt, c'))
+          end
+      end
+  end.
+Example C15_parse_option_nonvacuous :
+  let src := of_string "/d/main.dict" in
+  parse_model C15nv_pfs src true false true true [] None 999997 = C15nv_parse_rhs C15nv_pfs src true true [] None 999997 /\
+  parse_model C15nv_pfs src false false true true [] (Some (of_string "foam")) (-1) =
+    C15nv_parse_rhs C15nv_pfs src false true [] (Some (of_string "foam")) (-1) /\
+  match parse_model C15nv_pfs src true false true true [] None 999997 with
+  | Some (Ok (target, txt, c)) => target = of_string "/d/parsed.main.dict" /\ c = 2%Z /\ txt = native_header ++ of_string
+"/* blk */
+#include inc.dict
+5
+(
+
+    {
+        q                     1;
+        p                     2;
+    }
+    7
+);
+// first
+// c2
+aa                            2;
+alpha
+{
+    3                         4;
+    x                         'a  b';
+    y                         2;
+}
+beta                          1;
+mm                            1;
+zeta                          1;
+"
+  | _ => False
+  end.
+Proof.
+  intros src. split; [exact (C15_parse_option C15nv_pfs src true true [] None 999997%Z)|].
+  split; [exact (C15_parse_option C15nv_pfs src false true [] (Some (of_string "foam")) (-1)%Z)|].
+  vm_compute. repeat split; reflexivity.
+Qed.
+
+(* C15_writer_domain_closed on the example tree (four quoted leaves, the deepest three keys down, one of them inside a list) *)
+Example C15_writer_domain_closed_nonvacuous :
+  let t := Dict C15nv_d in
+  (wf (order_tree t) = wf t /\ writable_tree (order_tree t) = writable_tree t /\ simple_tree (order_tree t) = simple_tree t /\
+   nq (order_tree t) = nq t /\ (forall b, quoted_within b (order_tree t) = quoted_within b t) /\
+   (forall f, map_leaves f (order_tree t) = order_tree (map_leaves f t))) /\
+  wf t = true /\ writable_tree t = true /\ simple_tree t = false /\ nq t = 4%nat /\
+  quoted_within 11 t = true /\ quoted_within 2 t = false /\
+  map_leaves written_value (order_tree t) = order_tree (map_leaves written_value t) /\
+  map_leaves written_value t <> t.
+Proof.
+  intros t. pose proof (C15_writer_domain_closed t) as H. split; [exact H|].
+  destruct H as (_ & _ & _ & _ & _ & Hf).
+  refine (conj _ (conj _ (conj _ (conj _ (conj _ (conj _ (conj (Hf written_value) _))))))); try (vm_compute; reflexivity).
+  vm_compute. discriminate.
+Qed.
